@@ -566,6 +566,42 @@ func (r *Run) Returns(fnName string, want []string, why string) {
 	for _, w := range want {
 		ws["return "+r.X(w)] = true
 	}
+	// `return f()` for a multi-result f is `v, err := f(); if err != nil { return zero…, err }; return v, nil`
+	if ei := errResultIndex(fn.Signature); ei > 0 {
+		for g := range got {
+			if ws[g] {
+				continue
+			}
+			comps := splitTop(strings.TrimPrefix(g, "return "))
+			if len(comps) != ei+1 || !strings.HasSuffix(comps[0], "#0") {
+				continue
+			}
+			base := strings.TrimSuffix(comps[0], "#0")
+			all := true
+			for i, c := range comps {
+				if c != fmt.Sprintf("%s#%d", base, i) {
+					all = false
+				}
+			}
+			if !all {
+				continue
+			}
+			okForm := append(append([]string{}, comps[:ei]...), "nil")
+			okS := "return " + strings.Join(okForm, ", ")
+			var failS string
+			for w := range ws {
+				wc := splitTop(strings.TrimPrefix(w, "return "))
+				if len(wc) == ei+1 && wc[ei] == comps[ei] && failureOnlyForm("return "+strings.Join(append(append([]string{}, wc[:ei]...), "x.Err"), ", ")) {
+					failS = w
+				}
+			}
+			if ws[okS] && failS != "" && !got[okS] && !got[failS] {
+				delete(got, g)
+				got[okS], got[failS] = true, true
+				onlyFail[failS] = true
+			}
+		}
+	}
 	var missing, extra, tolerated []string
 	newFail := false
 	for g := range got {
